@@ -269,6 +269,10 @@ func c04sameBatches(a, b string) bool {
 
 func c04exec(c *h.Ctx, cs *h.Case) {
 	for _, op := range cs.Ops {
+		if strings.HasPrefix(op, "c04 tcpb ") {
+			c04tcpExec(c, cs)
+			return
+		}
 		if strings.HasPrefix(op, "c04 inst ") {
 			// several instances, registration scripts, channels read on demand: c04multi.go
 			c04multiExec(c, cs)
@@ -508,6 +512,7 @@ func c04gen(c *h.Ctx, yield func(*h.Case)) {
 			}
 		})
 	}
+	c04tcpGen(c, yield)
 	c04multiGen(c, yield)
 }
 
